@@ -461,7 +461,7 @@ def limit_memory():
     # relative to what the worker has mapped already: after an earlier check has run into the limit the allocator may
     # not have given everything back (debug allocators of `-X dev` never do), and an absolute limit would then make
     # every later, innocent check fail with MemoryError
-    limit = max(MEMORY_LIMIT_BYTES, _mapped_bytes() + MEMORY_HEADROOM_BYTES)
+    limit = min(max(MEMORY_LIMIT_BYTES, _mapped_bytes() + MEMORY_HEADROOM_BYTES), MEMORY_LIMIT_BYTES + MEMORY_HEADROOM_BYTES)
     if hard != resource.RLIM_INFINITY:
         limit = min(limit, hard)
     if soft == resource.RLIM_INFINITY or soft > limit:
@@ -511,6 +511,35 @@ def _peak_rss_kb() -> int:
 
 def observe(source: str, config: str, fresh: bool = False):
     """-> ('unimportable'|'ok', [(key, what, lineno)], stats) ; stats = dict(diags=..., codes=Counter)"""
+    holder = []
+    try:
+        return _observe(source, config, fresh, holder)
+    finally:
+        # The generated modules hold values of awkward runtime kinds (frames, tracebacks, thread-locals, suspended
+        # coroutines): through a frame the whole caller chain of the import - and with it the Result, the visitor and
+        # the syntax tree of this check - stays reachable from the functions pyanalyze caches per checker, and the
+        # collector does not free it.  A thorough shard grew by ~1.3 MiB per program that way (4.6 GiB per shard, the
+        # machine ran out of memory).  Once everything has been read off the result the namespace is emptied.
+        for module in holder:
+            try:
+                vars(module).clear()
+            except Exception:  # noqa: BLE001
+                pass
+        # ... and the checker that is shared between programs (the way the CLI shares one between files) is replaced
+        # now and then: its CallableTracker and ArgSpecCache keep the scopes of every module they have seen
+        _OBSERVED[0] += 1
+        if _OBSERVED[0] % RECYCLE_CHECKERS_EVERY == 0:
+            import gc
+
+            harness._KW_CACHE.clear()
+            gc.collect()
+
+
+RECYCLE_CHECKERS_EVERY = 25
+_OBSERVED = [0]
+
+
+def _observe(source: str, config: str, fresh: bool, holder: list):
     import signal
 
     CONTRACT.reset()
@@ -524,6 +553,7 @@ def observe(source: str, config: str, fresh: bool = False):
     module = None
     try:
         module = import_module(source)
+        holder.append(module)
         res = harness.run(source, fresh_checker=fresh, module=module, **kw)
     except (KeyboardInterrupt, SystemExit):
         raise
